@@ -95,8 +95,18 @@ func generatedPackages(thorough bool) []pkgDoc {
 	wp.Blocks = append(wp.Blocks, wpmodel.Block{Kind: wpmodel.BTable, Table: &wpmodel.Table{Rows: 3, Cols: 3, Cells: []wpmodel.Cell{
 		{R: 0, C: 0, RS: 2, CS: 1, Paras: cellP("A")}, {R: 0, C: 1, RS: 1, CS: 2, Paras: cellP("B")},
 		{R: 1, C: 1, RS: 2, CS: 2, Paras: cellP("C")}, {R: 2, C: 0, RS: 1, CS: 1, Paras: cellP("E")}}}})
+	// and a list that uses every numbering format, one level each, with two items per level (the number of an item
+	// is formatted from the level's start value and its position)
+	wp.Lists = append(wp.Lists, wpmodel.ListDef{Kinds: []string{wpmodel.LDecimal, wpmodel.LLowerRoman, wpmodel.LUpperRoman,
+		wpmodel.LLowerLetter, wpmodel.LUpperLetter, wpmodel.LBullet}})
+	for depth := 0; depth < 6; depth++ {
+		for k := 0; k < 2; k++ {
+			wp.Blocks = append(wp.Blocks, wpmodel.Block{Kind: wpmodel.BItem, List: len(wp.Lists) - 1, Depth: depth,
+				Runs: cellP(fmt.Sprintf("item %d.%d", depth, k))[0]})
+		}
+	}
 	if err := wp.Validate(); err != nil {
-		panic("INFRA: the explicit span table is not a valid table: " + err.Error())
+		panic("INFRA: the explicit span table or list is not valid: " + err.Error())
 	}
 	if ms, err := docxw.Parts(wp, docxw.Options{AlwaysStyles: true, AlwaysNumbering: true, Settings: true, SectPr: true, TableStyle: true}); err == nil {
 		out = append(out, pkgDoc{"generated.docx", ".docx", fromWP(ms)})
@@ -256,14 +266,24 @@ func pkgFaults(d pkgDoc, stride int, emit emitFn) {
 				hs = append(hs, ".", "/", "..", "../../../../etc/passwd", "#", "?", "%", "%zz", "http://[::1", strings.Repeat("../", 2000))
 				hs = append(hs, ids...)
 			}
+			smallNumber := false
+			if v, err := strconv.Atoi(val); err == nil && v >= 0 && v < 100 {
+				smallNumber = true
+			}
 			for _, h := range hs {
 				h := h
 				if h == val {
 					continue
 				}
-				add(fmt.Sprintf("%s: attribute %s=%q := %q", m.name, name, clipS(val), clipS(h)), func() []byte {
-					return with(i, splice(m.data, vs, ve-vs, h))
-				})
+				fault := fmt.Sprintf("%s: attribute %s=%q := %q", m.name, name, clipS(val), clipS(h))
+				build := func() []byte { return with(i, splice(m.data, vs, ve-vs, h)) }
+				if smallNumber && (h == "2147483648" || h == "9223372036854775807") {
+					// counts, levels, spans and start values made enormous: never thinned out (a loop or an
+					// allocation sized by one of them is the most likely way to hang or exhaust memory)
+					emit("file", d.ext, fault+" ["+d.name+"]", build)
+					continue
+				}
+				add(fault, build)
 			}
 		}
 		// element-level faults, first occurrence of every element name
